@@ -103,6 +103,7 @@ class Rec:
         self.notes = collections.OrderedDict()
         self.unavailable = []
         self.inconclusive = []
+        self.waived = {}                   # required input class -> reason it could not be produced (e.g. W4 substitution impossible)
         self.blob = None                   # free-form per-shard data for a property's offline checker (not merged)
         self.t0 = time.time()
 
@@ -156,6 +157,9 @@ class Rec:
                 "stack": "".join(traceback.format_stack(limit=8)[:-1])[-1500:],
             })
 
+    def waive(self, cls, reason):
+        self.waived[cls] = reason
+
     def exhaustive_space(self, space, size):
         self.exhaustive.append({"space": space, "size": size})
 
@@ -168,7 +172,7 @@ class Rec:
             "samples": self.samples, "violations": self.violations,
             "violation_count": self.violation_count, "vkeys": self.vkeys,
             "exhaustive": self.exhaustive, "notes": self.notes,
-            "unavailable": self.unavailable, "inconclusive": self.inconclusive, "blob": self.blob,
+            "unavailable": self.unavailable, "inconclusive": self.inconclusive, "blob": self.blob, "waived": self.waived,
             "wall_s": round(time.time() - self.t0, 2),
         }
 
